@@ -95,11 +95,75 @@ func factsAt(f *ssa.Function, b *ssa.BasicBlock) []fact {
 		e := edgeDominates(f, edge{d, 1}, b)
 		if t && !e {
 			out = append(out, fact{ifi.Cond, true, edge{d, 0}})
+			out = append(out, conjuncts(ifi.Cond, true, edge{d, 0}, 0)...)
 		} else if e && !t {
 			out = append(out, fact{ifi.Cond, false, edge{d, 1}})
+			out = append(out, conjuncts(ifi.Cond, false, edge{d, 1}, 0)...)
 		}
 	}
 	return out
+}
+
+// conjuncts decomposes a short-circuit expression evaluated as a VALUE (go/ssa builds `a && b`
+// in value context - a switch case, an assignment - as phi[false from the block testing a, b]):
+// when the phi is true both operands are; for `a || b` = phi[true, b], when it is false both are
+// false. The other polarity implies nothing. Negation (!x) is looked through.
+func conjuncts(cond ssa.Value, truth bool, e edge, depth int) []fact {
+	if depth > 4 {
+		return nil
+	}
+	switch x := cond.(type) {
+	case *ssa.UnOp:
+		if x.Op == token.NOT {
+			out := []fact{{x.X, !truth, e}}
+			return append(out, conjuncts(x.X, !truth, e, depth+1)...)
+		}
+	case *ssa.Phi:
+		var rhs ssa.Value
+		var k, haveK bool
+		var shortPreds []int
+		for i, ed := range x.Edges {
+			if b, ok := constBool(ed); ok {
+				if haveK && b != k {
+					return nil
+				}
+				k, haveK = b, true
+				shortPreds = append(shortPreds, i)
+				continue
+			}
+			if rhs != nil {
+				return nil
+			}
+			rhs = ed
+		}
+		if rhs == nil || !haveK || k == truth {
+			return nil // && tells something only when true, || only when false
+		}
+		var out []fact
+		out = append(out, fact{rhs, truth, e})
+		out = append(out, conjuncts(rhs, truth, e, depth+1)...)
+		for _, i := range shortPreds {
+			pred := x.Block().Preds[i]
+			pif := lastIf(pred)
+			if pif == nil {
+				return nil
+			}
+			// the short-circuit edge pred -> phi block was NOT taken: the operand had the other value
+			idx := 0
+			if pred.Succs[0] == x.Block() {
+				idx = 0
+			} else if pred.Succs[1] == x.Block() {
+				idx = 1
+			} else {
+				return nil
+			}
+			opTruth := idx != 0 // taking Succs[0] means cond true; we took the other one
+			out = append(out, fact{pif.Cond, opTruth, e})
+			out = append(out, conjuncts(pif.Cond, opTruth, e, depth+1)...)
+		}
+		return out
+	}
+	return nil
 }
 
 func lastIf(b *ssa.BasicBlock) *ssa.If {
